@@ -41,6 +41,12 @@ def load_spell():
     return _SPELL
 
 
+def rank_value(r):
+    """the model's MinRank (-100000) stands for isize::MIN: ranks near it are rendered near isize::MIN"""
+    r = int(r)
+    return -(2 ** 63) + (r + 100000) if r <= -99000 else r
+
+
 def hpick(n, *key):
     h = hashlib.sha256(repr(key).encode()).digest()
     return h[0] % n
@@ -345,7 +351,7 @@ class TypeRender:
                 elif f.get('ord', 'own') == 'method':
                     ps.append(self.sp('method_p', base + '/Ord/method', V=self.method_path(mt)))
                 if has_rank:
-                    ps.append(self.sp('rank_p', base + '/Ord/rank', V=int(f['rank'])))
+                    ps.append(self.sp('rank_p', base + '/Ord/rank', V=rank_value(f['rank'])))
                 if ps:
                     metas.append(self.meta(via, ps, base + '/Ord'))
         if 'Hash' in self.traits and f.get('hash', 'own') != 'own':
